@@ -137,11 +137,10 @@ def apply_op(S, op):
 
 # ---- strategies for ops on N qubits ----------------------------------------------------------
 def st_prog_with_measure(N, max_len=6, rand=True):
-    g = [gen.st_gate(N)]
-    g.append(st.integers(1, N).flatmap(lambda n: st.fixed_dictionaries({'kind': st.just('measure'), 'qubits': gen.st_subset(N, n)})))
-    if rand:
-        g.append(st.integers(1, min(N, 2)).flatmap(lambda n: st.fixed_dictionaries({'kind': st.just('rand'), 'qubits': gen.st_subset(N, n)})))
-    return st.lists(st.one_of(*g), max_size=max_len)
+    meas = st.integers(1, N).flatmap(lambda n: st.fixed_dictionaries({'kind': st.just('measure'), 'qubits': gen.st_subset(N, n)}))
+    rnd = st.integers(1, min(N, 2)).flatmap(lambda n: st.fixed_dictionaries({'kind': st.just('rand'), 'qubits': gen.st_subset(N, n)}))
+    g = st.integers(0, 5).flatmap(lambda i: meas if i < 2 else (rnd if (i == 2 and rand) else gen.st_gate(N)))
+    return st.lists(g, max_size=max_len)
 
 
 @functools.lru_cache(maxsize=None)
